@@ -214,7 +214,7 @@ def stepHyps (s : DState) (toks : List String) : DState × String :=
     let sel := selectPolicies s.wl s.policies
     let mig := sel.all fun p => p.rules.all fun ru => migrationOKB s.opts p.ns ru
     let scope := sel.all fun p => p.rules.all fun ru => ruleInScope s.opts r p.ns ru
-    (s, s!"hyps={boolTok (hypsAllB s.opts sel r)} tr={boolTok (translatableB s.opts sel)} " ++
+    (s, s!"hyps={boolTok (hypsOnB s.opts sel r)} tr={boolTok (translatableB s.opts sel)} " ++
         s!"compiled={decTok (evalGs s.filters r)} spec={decTok (specDecisionOn s.wl s.bundle s.custom s.opts.forTCP s.policies r)} " ++
         s!"mig={boolTok mig} scope={boolTok scope} peer={boolTok r.peerOK} names={boolTok (entriesDistinctB s.opts sel)}")
   | "build" :: _ => let (s', _) := step s toks; (s', "built")
